@@ -303,11 +303,17 @@ fn gen_duration(t: &mut Tape, g: &Gates) -> Lit {
                 // a fraction whose value is a whole number of nanoseconds: fr * f must be a
                 // multiple of 10^fd, i.e. fr a multiple of 10^fd / gcd(f, 10^fd)
                 let scale = 10i128.pow(fd as u32);
+                let underscore_ok = g.want("FRACTION_UNDERSCORE");
                 let g = gcd(f, scale);
                 let step = scale / g;
                 let frn: i128 = step * (t.u64() as i128 % g);
                 let fr = format!("{:0width$}", frn, width = fd);
-                num = format!("{}.{}", num, fr);
+                // underscores are ignored right of the decimal point too
+                let fr_text = if fd > 1 && t.ratio(1, 4) && underscore_ok { underscores(&fr, t) } else { fr.clone() };
+                if fr_text.contains('_') {
+                    class.push_str(".fraction-underscore");
+                }
+                num = format!("{}.{}", num, fr_text);
                 let add = frn * f / scale;
                 if fd > 3 {
                     class.push_str(".long");
@@ -488,7 +494,8 @@ fn gen_tod_fields(t: &mut Tape, g: &Gates) -> (String, Option<(u8, u8, u8, u32)>
             fr.push((b'0' + t.below(10) as u8) as char);
         }
         micro = fr.parse::<u32>().unwrap() * 10u32.pow(6 - fd as u32);
-        text = format!("{}.{}", text, fr);
+        let fr_text = if fd > 1 && t.ratio(1, 4) && g.want("FRACTION_UNDERSCORE") { underscores(&fr, t) } else { fr.clone() };
+        text = format!("{}.{}", text, fr_text);
         class.push_str(".fraction");
     }
     let valid = !wrap && h < 24 && m < 60 && s < 60;
